@@ -38,7 +38,7 @@ def run(repo: Repo, rep, tier: str):
         sec = secs[name]
         rep.func(f"{sec.reader_cls.fq} ↔ writer[{name}]")
         parity.check_section(repo, rep, "C01", sec, sc)
-        n_w += len([w for w in sec.writer if w.kind == "chunk"])
+        n_w += len([w for w in sec.writer if w.kind == "chunk" or (w.kind == "magic" and w.cid in ("PEND", "SEND"))])
         n_r += len(sec.reader)
     rep.count("writer_rows", n_w, 68)
     rep.count("reader_handlers", n_r, 75)
@@ -461,6 +461,16 @@ def slot_terminators(repo: Repo, rep, P: str):
                     v = n.ast.value.value
                     if isinstance(v, ast.Tuple) and isinstance(v.elts[0], ast.Constant) and isinstance(v.elts[0].value, bytes):
                         ys.append(v.elts[0].value.decode().strip())
+                    elif isinstance(v, (ast.Name, ast.Attribute)):
+                        # a named constant chunk: `yield _PATTERN_END` with `_PATTERN_END = (b"PEND", b"")`
+                        try:
+                            cv = repo.fold(v, ci=proj)
+                            if isinstance(cv, tuple) and len(cv) == 2 and isinstance(cv[0], bytes):
+                                ys.append(cv[0].decode().strip())
+                            else:
+                                ys.append("?")
+                        except NotConst:
+                            ys.append("?")
                 elif n.kind == "stmt" and isinstance(n.ast, ast.Expr) and isinstance(n.ast.value, ast.YieldFrom):
                     ys.append("*")
             if not ys or ys[-1] != term or ys.count(term) != 1:
@@ -493,17 +503,42 @@ def clone_rule(repo: Repo, rep, P: str):
     cont = repo.cls("Container", module="rv.container")
     rel = cont.file.rel
     fn = repo.own_method(cont, "clone")
+    from .. import inline
+    from ..packed import single_defs, resolve_names
     calls = [norm(c) for c in walk_no_nested(fn) if isinstance(c, ast.Call)]
-    try:
-        i_w = next(i for i, c in enumerate(calls) if c.startswith("self.write_to("))
-        i_s = next(i for i, c in enumerate(calls) if c.endswith(".seek(0)"))
-        i_r = next(i for i, c in enumerate(calls) if c.startswith("read_sunvox_file("))
-        buf = calls[i_w][len("self.write_to("):-1]
-        ok = calls[i_r] == f"read_sunvox_file({buf})" and calls[i_s] == f"{buf}.seek(0)"
-        rets = [norm(s.value) for s in walk_no_nested(fn) if isinstance(s, ast.Return) and s.value is not None]
-        ok = ok and rets == [f"read_sunvox_file({buf})"]
-    except StopIteration:
-        ok = False
+    cdefs = single_defs(fn)
+    with_alias = {}
+    for w_ in ast.walk(fn):
+        if isinstance(w_, ast.With):
+            for it_ in w_.items:
+                if isinstance(it_.optional_vars, ast.Name) and isinstance(it_.context_expr, ast.Name):
+                    with_alias[it_.optional_vars.id] = it_.context_expr.id       # `with buf as f` (BytesIO returns itself)
+
+    def same_buffer(a: str, b: str) -> bool:
+        def root(x):
+            seen = set()
+            while x not in seen:
+                seen.add(x)
+                if x in with_alias:
+                    x = with_alias[x]
+                elif x in cdefs and isinstance(cdefs[x], ast.Name):
+                    x = cdefs[x].id
+                else:
+                    break
+            return x
+        return root(a) == root(b)
+    ok = False
+    wcalls = [c for c in ast.walk(fn) if isinstance(c, ast.Call) and norm(c.func) == "self.write_to" and len(c.args) == 1 and isinstance(c.args[0], ast.Name)]
+    rcalls = [c for c in ast.walk(fn) if isinstance(c, ast.Call) and norm(c.func).split(".")[-1] == "read_sunvox_file" and len(c.args) == 1
+              and isinstance(c.args[0], ast.Name)]
+    scalls = [c for c in ast.walk(fn) if isinstance(c, ast.Call) and isinstance(c.func, ast.Attribute) and c.func.attr == "seek" and len(c.args) == 1
+              and norm(c.args[0]) == "0" and isinstance(c.func.value, ast.Name)]
+    rets = [resolve_names(s.value, cdefs) for s in walk_no_nested(fn) if isinstance(s, ast.Return) and s.value is not None]
+    if len(wcalls) == 1 and len(rcalls) == 1 and scalls:
+        b = wcalls[0].args[0].id
+        ok = same_buffer(rcalls[0].args[0].id, b) and any(same_buffer(c.func.value.id, b) for c in scalls) \
+            and inline.pos(wcalls[0]) < min(inline.pos(c) for c in scalls if same_buffer(c.func.value.id, b)) < inline.pos(rcalls[0]) \
+            and len(rets) == 1 and isinstance(rets[0], ast.Call) and norm(rets[0].func).split(".")[-1] == "read_sunvox_file"
     if ok:
         rep.ok(f"{P}.R7", f"{rel}:Container.clone", "write_to(f); f.seek(0); return read_sunvox_file(f)", "clone = save then load")
     else:
